@@ -673,9 +673,9 @@ class ExprMixin:
         sa, sb = st, st.fork()
         self.budget()
         self.event(sa, fr, "cond", node, (True, val))
-        self.refine(node, True, sa, fr)
+        self.refine(node, True, sa, fr, val)
         self.event(sb, fr, "cond", node, (False, val))
-        self.refine(node, False, sb, fr)
+        self.refine(node, False, sb, fr, val)
         oc = getattr(self.model, "on_cond", None)
         if oc is not None:
             oc(self, sa, fr, node, True, val)
